@@ -15,26 +15,27 @@ CONSTANTS MaxLead, MaxPrefix
 Cls == {"a", "e", "j", "x"}
 Strs(n) == UNION {[1..m -> Cls] : m \in 0..n}
 
-VARIABLES lead, prefix, suffix, crlf, ending, ltext, wrap, done
-vars == <<lead, prefix, suffix, crlf, ending, ltext, wrap, done>>
-Init == lead = <<>> /\ prefix = <<>> /\ suffix = <<>> /\ crlf = FALSE /\ ending = "lf" /\ ltext = <<"a">> /\ wrap = "none" /\ done = FALSE
+VARIABLES lead, prefix, suffix, crlf, ending, ltext, wrap, eof, done
+vars == <<lead, prefix, suffix, crlf, ending, ltext, wrap, eof, done>>
+Init == lead = <<>> /\ prefix = <<>> /\ suffix = <<>> /\ crlf = FALSE /\ ending = "lf" /\ ltext = <<"a">> /\ wrap = "none" /\ eof = TRUE /\ done = FALSE
 
 \* leading lines all share one content (their content only matters through its bytes)
 Main == /\ ~done
         /\ \E p \in 0..MaxLead, c \in Strs(1), pf \in Strs(MaxPrefix), sf \in Strs(1), nl \in {"lf", "crlf", "crlf-lf", "lf-crlf"} :
              /\ lead' = [i \in 1..p |-> <<"a">> \o c]
              /\ prefix' = pf /\ suffix' = sf /\ crlf' = (nl = "crlf") /\ ending' = nl /\ done' = TRUE
-        /\ ltext' = <<"a">> /\ wrap' = "none"
+        /\ ltext' = <<"a">> /\ wrap' = "none" /\ eof' = TRUE
 
-\* the link's own text in every character class, and the link in a paragraph of two lines
-\* (a cursor on the other line of the block, at the link's columns, is not on the link)
+\* the link's own text in every character class, the link in a paragraph of two lines (a cursor on the
+\* other line of the block, at the link's columns, is not on the link), the text with and without a
+\* final newline (eof = TRUE: with)
 InLinkAndWrapped ==
         /\ ~done
         /\ \E p \in 0..1, pf \in Strs(1), nl \in {"lf", "crlf"}, lt \in {<<"a">>, <<"e">>, <<"j">>, <<"x">>, <<"e", "x">>},
-              w \in {"none", "after", "before"} :
+              w \in {"none", "after", "before"}, nl_at_end \in BOOLEAN :
              /\ lead' = [i \in 1..p |-> <<"a">>]
              /\ prefix' = pf /\ suffix' = <<>> /\ crlf' = (nl = "crlf") /\ ending' = nl /\ done' = TRUE
-             /\ ltext' = lt /\ wrap' = w
+             /\ ltext' = lt /\ wrap' = w /\ eof' = nl_at_end
 
 Next == Main \/ InLinkAndWrapped
 Spec == Init /\ [][Next]_vars
@@ -43,7 +44,9 @@ P == Len(lead)
 Case == [lead |-> lead, prefix |-> prefix, suffix |-> suffix, crlf |-> crlf, ending |-> ending, ltext |-> ltext, wrap |-> wrap,
          head_line |-> HeadLine(P), link_line |-> LinkLineW(P, wrap), block_line |-> HeadLine(P) + 2, ref_line |-> RefLineW(P, wrap), item_line |-> ItemLineW(P, wrap),
          link_start |-> LinkStart(prefix), link_end |-> LinkEndT(prefix, ltext), url_start |-> UrlStartT(prefix, ltext),
-         url_end |-> UrlEndT(prefix, ltext), quote_line |-> QuoteLineW(P, wrap), last_line |-> QuoteLineW(P, wrap)]
+         url_end |-> UrlEndT(prefix, ltext), j_line |-> JLineW(P, wrap), quote_line |-> QuoteLineW(P, wrap),
+         table_line |-> TableLineW(P, wrap), cell_line |-> CellLineW(P, wrap), z_line |-> ZLineW(P, wrap), y_line |-> YLineW(P, wrap),
+         eof |-> eof, last_line |-> YLineW(P, wrap)]
 
 Emit == done => PrintT(<<"CASE", ToJson(Case)>>)
 
